@@ -307,6 +307,61 @@ theorem gen_encodedLen_eq_model (n mode : Nat) :
     Mieru.Gen.Arith.lowEntropyEncodedPayloadLen n mode = (encodedLen n mode).map Int.ofNat :=
   encodedLen_eq n mode
 
+/-- The regenerated `validateLowEntropyDataAckMetadata` (pkg/protocol/metadata.go) is the model's `metaValid`,
+    for every protocol type, mode, mask, rotation and pair of length fields. -/
+theorem gen_meta_eq_model (proto mode : Nat) (half : UInt32) (rot pl el : Nat) :
+    validateLowEntropyDataAckMetadata proto mode half rot pl el = metaValid proto mode half.toNat rot pl el :=
+  metaValid_eq_gen proto mode half rot pl el
+
+/-- Metadata validation, both directions: accepted ⇔ low-entropy type ∧ extracted length ≤ 32768 ∧ valid
+    (mode, mask weight, rotation) ∧ the two length fields are tied by the length law (0 ↦ 0). -/
+theorem le_meta_validation_iff (proto mode half rot pl el : Nat) :
+    metaValid proto mode half rot pl el = true ↔
+      ((proto = 10 ∨ proto = 11) ∧ el ≤ 32768 ∧ validParams mode half rot = true ∧
+       (el = 0 → pl = 0) ∧ (0 < el → encodedLen el mode = some pl)) := by
+  constructor
+  · exact le_meta_validation_sound proto mode half rot pl el
+  · rintro ⟨hp, he, hv, h0, h1⟩
+    unfold metaValid
+    have hp' : (proto == 10 || proto == 11) = true := by rcases hp with h | h <;> simp [h]
+    by_cases hz : el = 0
+    · have := h0 hz; subst hz; subst this; simp [hp', hv]
+    · have hl := h1 (by omega)
+      have h8 : pl % 8 = 0 := by
+        unfold encodedLen at hl
+        split at hl
+        · simp at hl
+        · split at hl
+          · simp at hl
+          · split at hl
+            · simp at hl
+            · simp at hl; omega
+      simp [hp', he, hv, hz, hl, h8]
+
+/-- what the SENDER writes validates at the receiver: for a body the encoder accepts, the metadata
+    (type 10/11, the encoder's mode / mask / rotation, payloadLen = |encoded|, extractedLen = |body| ≤ 32768) pass
+    `validateLowEntropyDataAckMetadata`, and the decoder's own parameter checks are subsumed by it. -/
+theorem le_meta_valid_of_encode (src : Bytes) (proto mode half rot : Nat) (pad : Bool) (e : Bytes)
+    (hproto : proto = 10 ∨ proto = 11) (hlen : src.length ≤ 32768)
+    (h : encode src mode half rot pad = some e) :
+    metaValid proto mode half rot e.length src.length = true := by
+  rw [le_meta_validation_iff]
+  obtain ⟨c, el, hv, hc, hel, rfl⟩ := encode_eq src mode half rot pad e h
+  obtain ⟨c', hc', hl⟩ := le_length src mode half rot pad _ h
+  rw [hc] at hc'; cases hc'
+  have hne : src.length ≠ 0 := by
+    intro h0; simp [encodedLen, hc, h0] at hel
+  refine ⟨hproto, hlen, hv, fun h0 => absurd h0 hne, fun _ => ?_⟩
+  rw [hl, hel]
+  unfold encodedLen at hel
+  rw [hc] at hel
+  simp only at hel
+  split at hel
+  · simp at hel
+  · split at hel
+    · simp at hel
+    · simp at hel; rw [← hel]
+
 /-- The Go encoder's word formula is the bit-by-bit chunk encoding:
     `chunk = PDEP(source, mask) | (pad ? ^PDEP(lowBits(8·len), mask) : 0)`, stored big-endian. -/
 theorem encodeChunk_is_pdep (mask : List Bool) (hm : mask.length = 64) (src : Bytes) (hs : src.length ≤ 8) (pad : Bool) :
@@ -444,5 +499,73 @@ example : Mieru.Gen.LE.pdepGeneric 0x12345678 0x0f0f0f0f0f0f0f0f = some 0x010203
 example : Mieru.Gen.LE.rotateLowEntropyMask 0x0f0f0f0f0f0f0f0f 15 1 = 0x1e1e1e1e1e1e1e1e ∧
     Mieru.Gen.LE.rotateLowEntropyMask 0x0f0f0f0f0f0f0f0f 16 1 = 0x1e1e1e1e1e1e1e1e ∧
     Mieru.Gen.LE.rotateLowEntropyMask 0x0f0f0f0f0f0f0f0f 1 1 = 0x8787878787878787 := by decide
+
+/-! ## The wire-level wrappers (ciphertext body ‖ tag) -/
+
+/-- Wire-level wrappers: what `encodeLowEntropyEncryptedPayload` emits for `ciphertext ‖ tag` is accepted by
+    `decodeLowEntropyEncryptedPayload` under the same (valid) metadata and gives back `ciphertext ‖ tag`;
+    the tag bytes are untouched, and the encoded body has the length the metadata announces. -/
+theorem wrap_roundtrip (ct : Bytes) (proto mode half rot pl el : Nat) (pad : Bool) (w : Bytes)
+    (hproto : proto = 10 ∨ proto = 11) (hel : el ≤ 32768)
+    (h : wrapEncode ct mode half rot pl el pad = some w) :
+    wrapDecode w proto mode half rot pl el = some ct ∧
+    w.length = pl + tagLen ∧ w.drop pl = ct.drop el ∧ (ct.drop el).length = tagLen := by
+  unfold wrapEncode at h
+  split at h
+  · simp at h
+  · rename_i hlen
+    have hlen' : ct.length = el + tagLen := by simpa using hlen
+    split at h
+    · simp at h
+    · rename_i body henc
+      split at h
+      · simp at h
+      · rename_i hbl
+        have hbl' : body.length = pl := by simpa using hbl
+        simp only [Option.some.injEq] at h
+        subst h
+        have htl : (ct.take el).length = el := by rw [List.length_take]; omega
+        have hrt := le_roundtrip _ _ _ _ _ _ henc
+        rw [htl] at hrt
+        obtain ⟨c, hc, hlenlaw⟩ := le_length _ _ _ _ _ _ henc
+        rw [htl, hbl'] at hlenlaw
+        obtain ⟨c', el', hv, hc', hel', _⟩ := encode_eq _ _ _ _ _ _ henc
+        rw [htl] at hel'
+        have hmeta : metaValid proto mode half rot pl el = true := by
+          unfold metaValid
+          have hne : el ≠ 0 := by
+            intro h0; subst h0
+            simp [encodedLen, hc'] at hel'
+          have hel'' : encodedLen el mode = some pl := by
+            rw [hel']
+            unfold encodedLen at hel'
+            rw [hc'] at hel'
+            rw [hc] at hc'; cases hc'
+            simp only at hel'
+            split at hel'
+            · simp at hel'
+            · split at hel'
+              · simp at hel'
+              · simp at hel'; rw [← hel', hlenlaw]
+          have h8 : pl % 8 = 0 := by rw [hlenlaw]; omega
+          simp only [hv, hel'', Bool.and_true]
+          rcases hproto with rfl | rfl <;> simp [hel, h8, hne]
+        refine ⟨?_, ?_, ?_, ?_⟩
+        · unfold wrapDecode
+          simp only [hmeta, Bool.not_true, Bool.false_eq_true, if_false, List.length_append, hbl', List.length_drop, hlen']
+          have e1 : ¬ (pl + (el + tagLen - el) ≠ pl + tagLen) := by omega
+          rw [if_neg e1, ← hbl', List.take_left, List.drop_left, hrt]
+          simp only [List.take_append_drop]
+        · simp [hbl', hlen']
+        · rw [← hbl', List.drop_left]
+        · simp [hlen']
+
+example : wrapEncode ([0x12, 0x34, 0x56, 0x78] ++ List.replicate 16 0xaa) 1 0x0f0f0f0f 0 8 4 false
+    = some ([1, 2, 3, 4, 5, 6, 7, 8] ++ List.replicate 16 0xaa) := by decide
+example : wrapDecode ([1, 2, 3, 4, 5, 6, 7, 8] ++ List.replicate 16 0xaa) 10 1 0x0f0f0f0f 0 8 4
+    = some ([0x12, 0x34, 0x56, 0x78] ++ List.replicate 16 0xaa) := by decide
+/-- an empty ciphertext body has no low-entropy form; metadata that do not validate are refused before decoding -/
+example : wrapEncode (List.replicate 16 0xaa) 1 0x0f0f0f0f 0 0 0 false = none := by decide
+example : wrapDecode ([1, 2, 3, 4, 5, 6, 7, 8] ++ List.replicate 16 0xaa) 6 1 0x0f0f0f0f 0 8 4 = none := by decide
 
 end Mieru.C17
